@@ -15,7 +15,6 @@ package main
 // byte for byte with a stand-alone decode of the same datagram by the harness.
 
 import (
-	"fmt"
 	"bufio"
 	"bytes"
 	"encoding/json"
@@ -505,10 +504,10 @@ func plRun(job plJob) (res plResult) {
 		b := ad.pool.Get().([]byte)
 		full := b[:cap(b)]
 		body := plBytes(d.Buf)
-		if len(body) > cap(b) { // what the socket read does with a datagram longer than the buffer
-			body = body[:cap(b)]
+		if len(body) > len(b) { // what the socket read does with a datagram longer than the slice it is given
+			body = body[:len(b)]
 		}
-		copy(full, body)
+		copy(b, body)
 		// behind the datagram the buffer holds what an earlier, longer datagram left there: here, octets that would
 		// decode as further sets / records if anybody read past the datagram's end
 		for i := len(body); i < len(full); i++ {
@@ -638,7 +637,11 @@ func plRun(job plJob) (res plResult) {
 					id := int(mv[1] - '0')
 					w := byID(id)
 					if w == nil || w.gate == "" {
-						res.Problem = fmt.Sprintf("schedule %v, move %s: the worker is not parked at a hook (observations so far %+v)", sched, mv, obs)
+						// the model says this worker is parked at a hook; it is not: the real workers have left the model's
+						// path (the comparison of the observations says where)
+						obs = append(obs, plObs{Gates: []string{"not parked at a hook"}})
+						res.SchedObs = append(res.SchedObs, obs)
+						res.Decoded = ad.decoded()
 						return
 					}
 					release(w)
@@ -695,7 +698,7 @@ func plRun(job plJob) (res plResult) {
 		if rng.Intn(lazy) == 0 {
 			moves = append(moves, "consume")
 		}
-		if retired < job.Retire && len(workers) > 1 && next > len(job.Data)/3 {
+		if retired < job.Retire && len(workers) > 1 && next > len(job.Data)/4 && ad.qlen() > 0 {
 			for _, w := range ps {
 				if w.gate == "Top" && !w.retiring {
 					moves = append(moves, "retire")
@@ -732,6 +735,8 @@ func plRun(job plJob) (res plResult) {
 					retired++
 					close(w.quit) // what dynWorkers does on scale-down
 					ev(plEvent{Ev: "Retire", W: w.id})
+					// released at once, with a datagram queued: at its select both the quit signal and the datagram are ready
+					release(w)
 					break
 				}
 			}
@@ -778,11 +783,11 @@ func plRunFree(job plJob) (res plResult) {
 	feed := func(d plDgram) {
 		b := ad.pool.Get().([]byte)
 		body := plBytes(d.Buf)
-		if len(body) > cap(b) {
-			body = body[:cap(b)]
+		if len(body) > len(b) { // the socket read stores at most len(b) octets
+			body = body[:len(b)]
 		}
-		b = b[:cap(b)]
 		copy(b, body)
+		b = b[:cap(b)]
 		for i := len(body); i < len(b) && len(job.Poison) > 0; i++ {
 			b[i] = byte(job.Poison[(i-len(body))%len(job.Poison)])
 		}
